@@ -51,8 +51,17 @@ def C08(tier):
     return _count('C08', ['C08'], ['clean-snapshot', 'omega-exit', 'elected-exit'], tier, meek_only=True)
 
 
+def _render_jobs(tier):
+    return []
+
+
 def C18(tier):
-    return _count('C18', ['C18'], ['audit-trail-walked'], tier)
+    r = _count('C18', ['C18'], ['audit-trail-walked', 'qpq-restart-implied'], tier)
+    # candidates sharing a name (the BLT format allows it): the audit trail must still list every status change
+    for rule, opts in [('wigm', grid.FX2), ('scotland', {}), ('mpls', {}), ('meek', {'arithmetic': 'fixed', 'precision': 3, 'omega': 2}), ('wigm-prf', {})]:
+        r['jobs'].append(grid.job(rule, opts, 3, 2, 3, 6 if tier != 'thorough' else 8, ['C18'], 300 if tier != 'thorough' else 1500, names=['Smith', 'Smith', 'Jones']))
+    r['jobs'] += _render_jobs(tier)
+    return r
 
 
 # ---------------------------------------------------------------------------------------------------
@@ -136,6 +145,24 @@ def C13(tier):
             obs.append([law, {'p': p}])
     r = _leaf(obs, GUARD_FUNCS + FIXED_FUNCS, require=list(laws.GUARDED_LAWS))
     r['bounds'] = dict(precisions=ps, guards=gs, operands='unbounded')
+    quick = tier != 'thorough'
+    # (b) guard = 0 behaves like fixed in every count
+    for rule in ('wigm', 'meek', 'warren'):
+        for p in ((1, 3) if quick else (1, 2, 3, 4)):
+            for seats in (1, 2):
+                om = {} if rule == 'wigm' else {'omega': min(p, 2)}
+                r['jobs'].append(djob('opts', rule, {}, 3, seats, 3, 5 if quick else 6,
+                                      optionsA=dict(rule=rule, arithmetic='fixed', precision=p, **om),
+                                      optionsB=dict(rule=rule, arithmetic='guarded', precision=p, guard=0, **om), ignore_msgs=False,
+                                      budget=300 if quick else 1500, cfg='g0-vs-fixed p=%d' % p))
+    # (c) quasi-exact == exact when the comparison statistics show no near-tolerance comparison
+    for rule, om in (('wigm', {}), ('meek', {'omega': 2}), ('warren', {'omega': 2})):
+        for (p, g) in (((4, 4), (2, 1)) if quick else ((4, 4), (6, 3), (9, 9), (2, 1))):
+            r['jobs'].append(djob('gq', rule, om, 3, 1 if rule != 'wigm' else 2, 2, 4, p=p, g=g, budget=300 if quick else 1500, weight=5))
+    r['require_reach'] = r['require_reach'] + ['pair-compared', 'premise-holds']
+    r['assumptions'] = r['assumptions'] + DIFF_ASSUME + ['(c) reads "statistics show no comparison near the tolerance" as maxDiff < geps/100 and minDiff > 100*geps']
+    r['level_text'] = r['level_text'] + '; ' + LEVEL_DIFF
+    r['bounds'].update(count_differentials=dict(candidates=3, ballots_max=5 if quick else 6, rational_leg='U(3,2,4,4)'))
     return r
 
 
